@@ -23,7 +23,10 @@ PLAN = ("for each selected UNI number one generic magnetic crystal per (moment k
         "axial/polar): one magnetic species with a generic moment on a generic orbit of the generating magnetic group, plus one "
         "non-magnetic species when the group is small; variants: own conventional cell; re-described cell (random unimodular "
         "re-basing with entries up to 6, origin shift, rigid rotation with the moments rotated along, atom permutation, added "
-        "lattice vectors); all moments reversed; all moments zero; supercell by a random HNF of index 2..3 (thorough 2..4); "
+        "lattice vectors); all moments reversed; all moments zero; weakly canted moments (about half of the moments perturbed by "
+        "6 mag_symprec .. 0.3 sqrt(mag_symprec), mag_symprec in {1e-5, 1e-4}: the symmetry is then an unknown subgroup, these cases "
+        "are judged by the truth-independent clauses of C11 only - every reported operation maps moments within 4 mag_symprec, "
+        "group axioms, index); supercell by a random HNF of index 2..3 (thorough 2..4); "
         "symprec 1e-4, mag_symprec in {None, 1e-4, 3e-4, 1e-3}.  "
         "quick: UNI numbers with (uni+seed) mod 3 == 0 plus the first entry of every construct type x centering class, one "
         "combination chosen by (uni+seed) mod 4, always a re-described case, the other variants for a seed-dependent 1/3..1/6 "
@@ -91,6 +94,18 @@ seg = pipe.seg
 parse_answer = pipe.parse_answer
 
 
+CANT_OK = re.compile(r"C11\[(det|pos|mom|identity|dup|closure|inverse|index)\]|C08:")
+
+
+def own_fails(pid, line, p):
+    """Failed clauses of this property; weakly canted cases (`tvariant cant`: the generating group is only an upper bound
+    of the symmetry) are judged by the truth-independent clauses of C11 alone."""
+    mine = [f for f in p["fails"] if f.startswith(pid) or f.startswith("C08:")]
+    if seg(line, "tvariant") == "cant":
+        mine = [f for f in mine if CANT_OK.match(f)]
+    return mine
+
+
 def clause_code(f):
     m = re.match(r"(C\d\d\[[^\]]*\])", f)
     return m.group(1) if m else f.split(":")[0]
@@ -154,7 +169,7 @@ def run_property(pid, tier, seed, props, rule, nontrivial, classify=None, truste
             distinct.add(sig)
             if nontrivial(p, line):
                 nontriv += 1
-        mine = [f for f in p["fails"] if f.startswith(pid) or f.startswith("C08:")]
+        mine = own_fails(pid, line, p)
         if mine:
             for f in mine:
                 c = clause_code(f)
@@ -235,7 +250,7 @@ def replay(pid, path, classify=None):
     a = vlib.run_model([line])[0]
     print("oracle:", a[:3000])
     p = parse_answer(a)
-    mine = [f for f in (p["fails"] if p else ["unparsed"]) if f.startswith(pid) or f.startswith("C08:")]
+    mine = own_fails(pid, line, p) if p else ["unparsed"]
     if mine:
         k = classify(line, p, mine) if (classify and p) else None
         if k is not None and any(kf["property"] == pid and kf["key"] == k for kf in vlib.load_known()):
